@@ -44,4 +44,5 @@ def run(rep, fb, tier):
     __import__("vf.rules.pyrules5", fromlist=["x"]).rule_py_none_after_loop(rep)
     __import__("vf.rules.lints3", fromlist=["x"]).rule_mergeable_unwraps(rep, fb)
     __import__("vf.rules.pyrules5", fromlist=["x"]).rule_py_slice_consumed(rep)
+    __import__("vf.rules.pyrules5", fromlist=["x"]).rule_py_last_wins(rep)
     rep.units = fb.units + ["src/awkward/partition.py, _util.py, operations/structure.py (ast)"]
